@@ -124,6 +124,8 @@ def correspondence(inproc, lean_ok):
     for name, src in items:
         derives = re.findall(r"derive_more::(\w+)", src.split("]")[0])
         body = src[src.index("]") + 1:]
+        if name.endswith("/alone"):
+            body = body[:body.index(" impl")]      # the hand-written operator impl that follows is not derive input
         for d in derives:
             reqs.append((name, d, body))
     impl = C.drive(inproc, [f"expand {d} {C.hexs(b)}" for _, d, b in reqs])
